@@ -1,6 +1,6 @@
 (* C01 — credit is conserved. *)
 From Coq Require Import List ZArith Bool.
-From Verif Require Import Charging.Servers Charging.ServersProofs Charging.Chf Charging.ChargeProofs.
+From Verif Require Import Charging.Servers Charging.ServersProofs Charging.Chf Charging.ChargeProofs Charging.HistoryProofs.
 Import ListNotations.
 Open Scope Z_scope.
 
@@ -19,6 +19,24 @@ Theorem C01_round : forall d supi rg x st req used,
   (forall ue' rg', (ue', rg') <> (supi, rg) -> bal d' ue' rg' = bal d ue' rg').
 Proof. exact charge_rg_conserves. Qed.
 Print Assumptions C01_round.
+
+(* Along every history of creates, updates, releases, recharges, credits and counter jumps, for every
+   account (s, r): stored balance + reservation held by the CHF = what it was at the start + what the
+   operator credited - unit cost x the online usage reported for it by the updates and releases the CHF
+   accepted.  history_ok: at every credit-control round of the history the account of the rated group
+   exists and nothing wraps (round_ok, the proviso of C01_round); it is decidable (history_okb) and is
+   evaluated on the harness's histories.  Usage carried by a create is not in [rated]: the model, like the
+   code, performs no credit control there (known finding C01/usage-in-create-not-rated). *)
+Theorem C01_history : forall rsize usize ops w s r x,
+  lookup (w_db w) s r = Some x -> history_ok rsize usize w ops ->
+  funds (run rsize usize w ops) s r = funds w s r + credited ops s r - cost_of x * rated rsize usize w ops s r.
+Proof. exact history_funds. Qed.
+Print Assumptions C01_history.
+
+Theorem C01_history_decidable : forall rsize usize ops w,
+  history_okb rsize usize w ops = true -> history_ok rsize usize w ops.
+Proof. exact history_okb_ok. Qed.
+Print Assumptions C01_history_decidable.
 
 (* non-vacuity: balance 1000, cost 2, reservation 50 of which 20 units (40) are
    reported used, 100 units requested *)
